@@ -465,7 +465,7 @@ func TestPropTokens(t *testing.T) {
 	o := oracleNamed("tokens")
 	ev.KeepFirst("tokens")
 	alpha := []string{"{", "}", "[", "]", ",", ":", "\"a\"", "\"", "1", "-", ".", "true", "null", "@a", "|", "// ", "/*", "*/", "#", "\n", " ", "{min: 1}", "x", "/", "\\"}
-	maxLen := ev.N(3, 4)
+	maxLen := ev.N(3, 5)
 	var n, nt, bad int64
 	gen.Shortlex(alpha, maxLen, ev.Mine, func(b []byte, _ []int) {
 		s := string(b)
